@@ -173,11 +173,13 @@ struct Monitor<'a> {
     bexit: HashMap<(u32, usize), Vec<i32>>,
     fentry: HashMap<u32, Vec<i32>>,
     fexit: HashMap<u32, Vec<i32>>,
+    /// log positions of firings caused by a conditional branch that was NOT taken (fall-through)
+    nt_idx: std::cell::RefCell<HashSet<usize>>,
 }
 
 impl<'a> Monitor<'a> {
     fn new(m: &'a IModule, plan: &[Probe]) -> Self {
-        let mut mo = Monitor { m, before: HashMap::new(), after: HashMap::new(), sem: HashMap::new(), bentry: HashMap::new(), bexit: HashMap::new(), fentry: HashMap::new(), fexit: HashMap::new() };
+        let mut mo = Monitor { m, before: HashMap::new(), after: HashMap::new(), sem: HashMap::new(), bentry: HashMap::new(), bexit: HashMap::new(), fentry: HashMap::new(), fexit: HashMap::new(), nt_idx: Default::default() };
         for p in plan {
             let f = fid(p.func);
             match p.mode {
@@ -275,7 +277,11 @@ impl<'a> Monitor<'a> {
                     }
                 }
             }
-            Event::BranchNotTaken { f, pc } => Self::fire(log, self.sem.get(&(*f, *pc))),
+            Event::BranchNotTaken { f, pc } => {
+                let from = log.len();
+                Self::fire(log, self.sem.get(&(*f, *pc)));
+                self.nt_idx.borrow_mut().extend(from..log.len());
+            }
         }
     }
 }
@@ -451,6 +457,23 @@ pub fn judge(case: &Case, keep_modules: bool) -> Result<Judged, String> {
         }
         let (m1, g1) = gaps(&r1.log);
         let (m2, g2) = gaps(&r2.log);
+        // per gap and probe: how many of the expected firings are fall-through firings of a
+        // conditional branch (they run right behind the branch, whatever its label is)
+        let nt_gaps: Vec<BTreeMap<i32, usize>> = {
+            let nt = mon.nt_idx.borrow();
+            let mut v = vec![BTreeMap::new()];
+            for (i, e) in r1.log.iter().enumerate() {
+                match e {
+                    LogEntry::Mark(_) => v.push(BTreeMap::new()),
+                    LogEntry::Probe(id) => {
+                        if nt.contains(&i) {
+                            *v.last_mut().unwrap().entry(*id).or_insert(0) += 1;
+                        }
+                    }
+                }
+            }
+            v
+        };
         // function entry/exit probes: their ORDER is fixed (entry code runs before anything else of
         // the activation, exit code last; several probes of one kind in injection order), so their
         // sub-sequence of the log is compared as a sequence
@@ -479,7 +502,16 @@ pub fn judge(case: &Case, keep_modules: bool) -> Result<Judged, String> {
                 let na = ac.get(&id).copied().unwrap_or(0);
                 if ne != na {
                     if let Some(p) = by_id.get(&id) {
-                        let dir = if na < ne { "missing" } else { "extra" };
+                        // fewer firings than the fall-through executions alone account for: the copy
+                        // behind the branch is lost, which no label-side defect explains
+                        let nt = nt_gaps.get(gi).and_then(|g| g.get(&id)).copied().unwrap_or(0);
+                        let dir = if na < nt {
+                            "missing-on-fall-through"
+                        } else if na < ne {
+                            "missing"
+                        } else {
+                            "extra"
+                        };
                         j.clauses.push(Clause {
                             mode: Some(p.mode),
                             sig: format!("event {} {} {}", p.mode.name(), site_desc(&orig, &em.roles, p), dir),
@@ -560,6 +592,10 @@ fn program_calls(p: &Program) -> bool {
         })
     }
     has(&p.main)
+}
+
+pub fn branch_targets_loop_pub(f: &IFunc, pc: usize) -> bool {
+    branch_targets_loop(f, pc)
 }
 
 fn branch_targets_loop(f: &IFunc, pc: usize) -> bool {
